@@ -53,6 +53,11 @@ func c04(tier string) int {
 	for _, op := range []string{"S", "D", "T", "C"} {
 		items = append(items, conc.Item{Name: "crash-conc", Params: "op=" + op, MaxBound: b, MaxExecs: 2_000_000, Label: "C04/crash-conc-" + op})
 	}
+	// two writers of one key (an RC commit / a Set against an autocommit Set): once both have returned,
+	// what a reader is given is what a crash must preserve
+	for _, op := range []string{"T", "S"} {
+		items = append(items, conc.Item{Name: "crash-conc", Params: "op=" + op + ",vs=S", MaxBound: b, MaxExecs: 2_000_000, Label: "C04/crash-conc-" + op + "-vs-set"})
+	}
 	cs := conc.RunItems(rp, pool, items, budget, verbose())
 	cov["concurrent_schedules_crashed"] = cs.Execs
 	cov["concurrent_completed_bound"] = cs.Completed
